@@ -20,7 +20,15 @@ func hMutateSomewhere(root any) {
 	var v any = nondetInt()
 	switch t := target.(type) {
 	case List:
-		switch nondetIntRange(0, 5) {
+		switch nondetIntRange(0, 7) {
+		case 6:
+			t.Reverse()
+		case 7:
+			if t.Count() > 0 && t.AllInts() {
+				t.Sort()
+			} else {
+				t.Add(v)
+			}
 		case 0:
 			t.Add(v)
 		case 1:
@@ -295,5 +303,48 @@ func H_C08_clone_repeatedly() {
 	verifAssert(!shared, "no container reachable from a clone is reachable from the original or from another clone")
 	hMutateSomewhere(cl2)
 	verifAssert(hExact(now, hSnapAny(c)) && hExact(s1, hSnapAny(cl1)), "mutating a clone leaves the original and the other clones unchanged")
+	verifReach("end")
+}
+
+// sources that were themselves produced by deriving operations (SubList, Concat, Filter, NewListOf) and hold
+// containers and unsorted numbers: the clone is just as deep and independent
+func H_C08_clone_of_derived_sources() {
+	x, y := nondetInt(), nondetInt()
+	inner := NewList(y, x)
+	io := NewObject("q", inner)
+	base := NewList(inner, io, 7)
+	var c any
+	switch nondetIntRange(0, 4) {
+	case 0:
+		c = base.SubList(0, 0)
+	case 1:
+		c = base.Concat(NewList(io))
+	case 2:
+		c = NewObject("k", base.SubList(0, 2), "n", NewList(y, x, 3))
+	case 3:
+		c = base.Filter(func(v any) bool { return true })
+	default:
+		c = NewListOf(inner, 2)
+	}
+	before := hSnapAny(c)
+	cl := hCloneAny(c)
+	verifAssert(hExact(before, hSnapAny(cl)), "the clone has the same content")
+	var co, cc []any
+	hContainers(c, &co)
+	hContainers(cl, &cc)
+	shared := false
+	for _, a := range co {
+		for _, b := range cc {
+			shared = shared || a == b
+		}
+	}
+	verifAssert(!shared, "no container reachable from the clone is reachable from the original")
+	if nondetIntRange(0, 1) == 0 {
+		hMutateSomewhere(cl)
+		verifAssert(hExact(before, hSnapAny(c)), "mutating the clone leaves the original unchanged")
+	} else {
+		hMutateSomewhere(c)
+		verifAssert(hExact(before, hSnapAny(cl)), "mutating the original leaves the clone unchanged")
+	}
 	verifReach("end")
 }
